@@ -403,7 +403,8 @@ func (d *Data) queryBackingStore(ctx storage.VersionedCtx, w http.ResponseWriter
 			numMatches++
 			return
 		}
-		out := removeReservedFields(value, showFields)
+		showUser, showTime := showFields.Bools()
+		out := selectFields(value, fieldMap, showUser, showTime)
 		jsonBytes, err := json.Marshal(out)
 		if err != nil {
 			dvid.Errorf("error in JSON encoding: %v\n", err)
